@@ -531,7 +531,7 @@ func cmdLockset(args []string) int {
 }
 
 var lockClasses = map[string]bool{"guarded_by": true, "guarded_by_held": true, "immutable": true, "config": true, "confined": true, "atomic": true,
-	"channel": true, "handoff": true, "nonnilchan": true, "signal": true, "openchan": true, "owned": false}
+	"channel": true, "handoff": true, "nonnilchan": true, "signal": true, "openchan": true, "openchan+nonnil": true, "owned": false}
 
 func (e *Engine) lockDecl(pkgPath, typ, field string) (cls, arg string, found bool) {
 	pc := e.contracts[pkgPath]
@@ -673,7 +673,7 @@ func (e *Engine) lockObligations(id string) (obls []*OblResult, trusted []string
 			} else {
 				fail(name, rw+" of "+a.Type+"."+a.Field+" without the owner's lock *"+arg+" (held: "+strings.Join(a.Held, ",")+")", a.Pos)
 			}
-		case "immutable", "nonnilchan", "signal", "channel", "openchan":
+		case "immutable", "nonnilchan", "signal", "channel", "openchan", "openchan+nonnil":
 			if a.Write {
 				fail(name, "write to immutable field "+a.Type+"."+a.Field+" of an object not allocated in this function", a.Pos)
 			} else {
